@@ -158,7 +158,10 @@ def close(a, b):
 		return type(a) is type(b) and a == b
 	if isinstance(a, (float, complex)) or isinstance(b, (float, complex)):
 		if isinstance(a, complex) or isinstance(b, complex):
-			return abs(a - b) <= 1e-9 * max(1.0, abs(a), abs(b))
+			try:
+				return abs(a - b) <= 1e-9 * max(1.0, abs(a), abs(b))
+			except Exception:
+				return False
 		if isinstance(a, float) and isinstance(b, float) and (a != a or b != b):
 			return a != a and b != b
 		try:
